@@ -340,6 +340,14 @@ def run_domain(prop, tier, seed, dom, exe, n, known, shrink_ok, base_answers):
         lines += X.histories(seed + 2000, prop, n // (8 if dom["rel"] else 4), big=True, **hopts)
     answers = run_cases(exe, name, lines, os.path.join(outd, stream + ".cases"))
     examine(res, prop, dom, exe, stream, "hist", lines, answers, orc, known, shrink_ok)
+    if prop == "C04":
+        # binary operations on boxes whose bounds move independently up / down between the operands
+        bl = X.box_joins(seed + 44, 150 if tier == "quick" else 3000)
+        if dom.get("asc_widen"):
+            bl = [X.ascending_widen(l) for l in bl]
+        ba = run_cases(exe, name, bl, os.path.join(outd, stream + "-box.cases"))
+        examine(res, prop, dom, exe, stream, "box", bl, ba, orc, known, shrink_ok)
+        st["box_cases"] = len(bl)
     if prop == "C03" and dom["rel"]:
         # decomposition of general linear constraints against established bounds, with a
         # dense sample of the solutions (domall_extra.lin_samples)
